@@ -28,13 +28,23 @@
 (*              of a selected resource; DrainLimited = TRUE -> the rest is *)
 (*              pulled and thrown away afterwards (the repair), FALSE ->   *)
 (*              the resource is left half read (pinned)                    *)
+(*                                                                         *)
+(* The same picture holds INSIDE one chain: the consumer is then a later   *)
+(* step that stops reading a resource early (a user rows function doing    *)
+(* islice / break / return) - no consumer-side repair is possible there,   *)
+(* the library does not own that code.  ObserverDrains = TRUE is the       *)
+(* repair on the OBSERVER's side: when it is asked for the next resource   *)
+(* (or for the end) it first finishes the resource it was writing - it     *)
+(* pulls the remaining rows itself.  With it the observer's invariants     *)
+(* hold for EVERY consumer (DrainSkipped, DrainLimited = FALSE included).  *)
 (***************************************************************************)
 EXTENDS Naturals, Sequences, FiniteSets, TLC
 
 CONSTANTS N, R,            \* resources, rows per resource
           Selected,        \* the set of resource indices the consumer keeps
           FinalPullDone, DrainSkipped, FailsAtEnd,
-          Limit, DrainLimited
+          Limit, DrainLimited,
+          ObserverDrains   \* the observer finishes the resource it is writing before it hands out the next one
 
 VARIABLES cur,        \* index of the resource the consumer is at (0 before the first, N + 1 after the final pull)
           pulled,     \* pulled[i]: rows of resource i pulled through the producer so far
@@ -48,8 +58,12 @@ Init == cur = 0 /\ pulled = [i \in 1..N |-> 0] /\ closed = [i \in 1..N |-> FALSE
 
 \* asking the producer for the next resource: it first finishes the previous one ONLY IF that one was read to its end -
 \* a generator that was left suspended in the middle is simply abandoned
+\* (ObserverDrains) leaving a resource makes the observer finish it
+Finished(p) == IF ObserverDrains /\ cur \in 1..N THEN [p EXCEPT ![cur] = R] ELSE p
+Closed(c) == IF ObserverDrains /\ cur \in 1..N THEN [c EXCEPT ![cur] = TRUE] ELSE c
 NextRes == /\ ~done /\ cur < N
-           /\ cur' = cur + 1 /\ UNCHANGED <<pulled, closed, committed, failed, done>>
+           /\ cur' = cur + 1 /\ pulled' = Finished(pulled) /\ closed' = Closed(closed)
+           /\ UNCHANGED <<committed, failed, done>>
 Wanted == IF Limit > 0 /\ Limit < R THEN Limit ELSE R
 Row == /\ ~done /\ cur \in 1..N /\ cur \in Selected /\ pulled[cur] < Wanted
        /\ pulled' = [pulled EXCEPT ![cur] = @ + 1]
@@ -68,7 +82,7 @@ ReadyToLeave == cur = 0 \/ (cur \in 1..N /\ (IF cur \in Selected THEN (IF Wanted
 FinalPull == /\ ~done /\ cur = N /\ ReadyToLeave /\ FinalPullDone
              /\ cur' = N + 1
              /\ IF FailsAtEnd THEN failed' = TRUE /\ UNCHANGED committed ELSE committed' = TRUE /\ UNCHANGED failed
-             /\ done' = TRUE /\ UNCHANGED <<pulled, closed>>
+             /\ done' = TRUE /\ pulled' = Finished(pulled) /\ closed' = Closed(closed)
 StopShort == /\ ~done /\ cur = N /\ ReadyToLeave /\ ~FinalPullDone
              /\ done' = TRUE /\ UNCHANGED <<cur, pulled, closed, committed, failed>>
 Advance == NextRes /\ ReadyToLeave
